@@ -26,6 +26,50 @@ theorem bind_err {α β} (x : M α) (f : α → M β) (w w' : World) (e : Err)
     rfl
   | ok a => right; exact ⟨a, w1, rfl, h⟩
 
+/-- the event log only grew, and the `get_context_data` calls logged meanwhile carry ids generated meanwhile, in
+strictly increasing order (so: each id at most once) -/
+def EvsOk (w w' : World) : Prop :=
+  ∃ evs, w'.events = w.events ++ evs ∧ (∀ k ∈ gcdIds evs, w.nextId ≤ k ∧ k < w'.nextId) ∧ (gcdIds evs).Pairwise (· < ·)
+
+theorem EvsOk.same {w w' : World} (h : w'.events = w.events) : EvsOk w w' := by
+  refine ⟨[], by simp [h], ?_, List.Pairwise.nil⟩
+  intro k hk; cases hk
+
+theorem EvsOk.quiet {w w' : World} (evs : List Ev) (h : w'.events = w.events ++ evs) (hg : gcdIds evs = []) : EvsOk w w' := by
+  refine ⟨evs, h, ?_, ?_⟩
+  · rw [hg]; intro k hk; cases hk
+  · rw [hg]; exact List.Pairwise.nil
+
+theorem EvsOk.one {w w' : World} (ev : Ev) (hn : w'.nextId = w.nextId) (hev : gcdIds [ev] = [])
+    (h : w'.events = w.events ∨ w'.events = w.events ++ [ev]) : EvsOk w w' := by
+  rcases h with h | h
+  · exact EvsOk.same h
+  · exact EvsOk.quiet [ev] h hev
+
+theorem EvsOk.trans {a b c : World} (hab : a.nextId ≤ b.nextId) (hbc : b.nextId ≤ c.nextId) (h1 : EvsOk a b) (h2 : EvsOk b c) :
+    EvsOk a c := by
+  obtain ⟨e1, he1, hr1, hp1⟩ := h1
+  obtain ⟨e2, he2, hr2, hp2⟩ := h2
+  refine ⟨e1 ++ e2, by rw [he2, he1, List.append_assoc], ?_, ?_⟩
+  · intro k hk
+    rw [gcdIds_append, List.mem_append] at hk
+    rcases hk with hk | hk
+    · have := hr1 k hk; omega
+    · have := hr2 k hk; omega
+  · rw [gcdIds_append, List.pairwise_append]
+    refine ⟨hp1, hp2, ?_⟩
+    intro x hx y hy
+    have := hr1 x hx; have := hr2 y hy; omega
+
+theorem EvsOk.of_range {w w' : World} (h : ∃ evs, w'.events = w.events ++ evs ∧ gcdIds evs = List.range' w.nextId (w'.nextId - w.nextId)) :
+    EvsOk w w' := by
+  obtain ⟨evs, he, hg⟩ := h
+  refine ⟨evs, he, ?_, ?_⟩
+  · intro k hk
+    rw [hg, List.mem_range'_1] at hk
+    omega
+  · rw [hg]; exact List.pairwise_lt_range'
+
 /-- what any run of the fragment — returning or raising — may have done to the world -/
 structure Frame (w w' : World) : Prop where
   next : w.nextId ≤ w'.nextId
@@ -37,9 +81,10 @@ structure Frame (w w' : World) : Prop where
   hcc : ∀ k, w'.nextId ≤ k → alGet k w'.ctxCache = none
   hca : ∀ k, w'.nextId ≤ k → alGet k w'.childAttrs = none
   good : (∀ k cc, alGet k w.ctxCache = some cc → GoodC cc) → ∀ k cc, alGet k w'.ctxCache = some cc → GoodC cc
+  evs : EvsOk w w'
 
 theorem Frame.refl {w : World} (hw : WInv w) : Frame w w :=
-  ⟨Nat.le_refl _, fun _ _ => rfl, fun _ _ => rfl, fun _ _ => rfl, ⟨rfl, rfl, rfl⟩, hw.rc, hw.cc, hw.ca, fun h => h⟩
+  ⟨Nat.le_refl _, fun _ _ => rfl, fun _ _ => rfl, fun _ _ => rfl, ⟨rfl, rfl, rfl⟩, hw.rc, hw.cc, hw.ca, fun h => h, EvsOk.same rfl⟩
 
 theorem Frame.trans {a b c : World} (h1 : Frame a b) (h2 : Frame b c) : Frame a c where
   next := Nat.le_trans h1.next h2.next
@@ -54,6 +99,7 @@ theorem Frame.trans {a b c : World} (h1 : Frame a b) (h2 : Frame b c) : Frame a 
   hcc := h2.hcc
   hca := h2.hca
   good := fun h => h2.good (h1.good h)
+  evs := EvsOk.trans h1.next h2.next h1.evs h2.evs
 
 theorem Frame.winv {w w' : World} (hw : WInv w) (h : Frame w w') : WInv w' :=
   ⟨by rw [h.prov.1]; exact hw.prov, h.hrc, h.hcc, h.hca,
@@ -63,10 +109,10 @@ theorem Frame.of_bal {env : Env} {w w' : World} {ids : List Nat} (hw : WInv w) (
   have hlow : ∀ k, k < w.nextId → k ∉ ids := fun k hk hm => by have := (hb.range k hm).1; omega
   have hw' := hw.step hb
   exact ⟨hb.next, fun k hk => hb.rc k (hlow k hk), fun k hk => hb.cc k (hlow k hk), fun k _ => hb.ca k, ⟨hb.prov.1, hb.prov.2.1, hb.prov.2.2.1⟩,
-    hw'.rc, hw'.cc, hw'.ca, fun _ => hw'.good⟩
+    hw'.rc, hw'.cc, hw'.ca, fun _ => hw'.good, EvsOk.of_range hb.evs⟩
 
 theorem Frame.left {a b w' : World} (h : core a = core b) (hf : Frame a w') : Frame b w' := by
-  obtain ⟨h1, h2, h3, h4, h5, h6, h7, h8, _⟩ := core_fields h
+  obtain ⟨h1, h2, h3, h4, h5, h6, h7, h8, h9⟩ := core_fields h
   constructor
   · rw [← h1]; exact hf.next
   · rw [← h1, ← h3]; exact hf.rc
@@ -77,9 +123,11 @@ theorem Frame.left {a b w' : World} (h : core a = core b) (hf : Frame a w') : Fr
   · exact hf.hcc
   · exact hf.hca
   · rw [← h2]; exact hf.good
+  · obtain ⟨evs, he, hr, hp⟩ := hf.evs
+    exact ⟨evs, by rw [← h9]; exact he, by rw [← h1]; exact hr, hp⟩
 
 theorem Frame.right {w a b : World} (h : core a = core b) (hf : Frame w a) : Frame w b := by
-  obtain ⟨h1, h2, h3, h4, h5, h6, h7, h8, _⟩ := core_fields h
+  obtain ⟨h1, h2, h3, h4, h5, h6, h7, h8, h9⟩ := core_fields h
   constructor
   · rw [← h1]; exact hf.next
   · rw [← h3]; exact hf.rc
@@ -90,10 +138,12 @@ theorem Frame.right {w a b : World} (h : core a = core b) (hf : Frame w a) : Fra
   · rw [← h1, ← h2]; exact hf.hcc
   · rw [← h1, ← h4]; exact hf.hca
   · rw [← h2]; exact hf.good
+  · obtain ⟨evs, he, hr, hp⟩ := hf.evs
+    exact ⟨evs, by rw [← h9]; exact he, by rw [← h1]; exact hr, hp⟩
 
 /-- a callback that raised touched nothing but the event log and the instance counter -/
 theorem tick_err (env : Env) (ev : Ev) (w w' : World) (e : Err) (h : (tick env ev).run.run w = (.error e, w')) :
-    core w' = core { w with events := w'.events } := by
+    core w' = core { w with events := w'.events } ∧ (w'.events = w.events ∨ w'.events = w.events ++ [ev]) := by
   unfold tick at h
   have tail : ∀ (a s : World), (match env.raiseAt with
       | some (i, c) =>
@@ -118,12 +168,12 @@ theorem tick_err (env : Env) (ev : Ev) (w w' : World) (e : Err) (h : (tick env e
     simp only at h
     by_cases hg : w.gcds ≥ env.maxInst
     · simp only [hg, ↓reduceIte, run_throw] at h
-      have := snd_eq h; subst this; rfl
+      have := snd_eq h; subst this; exact ⟨rfl, .inl rfl⟩
     · simp only [hg, ↓reduceIte, run_pure] at h
-      rw [tail { w with gcds := w.gcds + 1 } _ h]; rfl
-  | before id => simp only [run_pure] at h; rw [tail _ _ h]
-  | after id => simp only [run_pure] at h; rw [tail _ _ h]
-  | inject id key => simp only [run_pure] at h; rw [tail _ _ h]
+      rw [tail { w with gcds := w.gcds + 1 } _ h]; exact ⟨rfl, .inr rfl⟩
+  | before id => simp only [run_pure] at h; rw [tail _ _ h]; exact ⟨rfl, .inr rfl⟩
+  | after id => simp only [run_pure] at h; rw [tail _ _ h]; exact ⟨rfl, .inr rfl⟩
+  | inject id key => simp only [run_pure] at h; rw [tail _ _ h]; exact ⟨rfl, .inr rfl⟩
 
 
 theorem linv_frame {env : Env} {w0 w : World} {Q : List QItem} (h0 : WInv w0) (hl : LInv env w0 Q w) : Frame w0 w := by
@@ -131,11 +181,11 @@ theorem linv_frame {env : Env} {w0 w : World} {Q : List QItem} (h0 : WInv w0) (h
   have hlow1 : ∀ k, k < w0.nextId → k ∉ chIds Q := fun k hk hm => hlow k hk (List.mem_append_left _ hm)
   have hw := hl.winv h0
   exact ⟨hl.next, fun k hk => hl.rc k (hlow1 k hk), fun k hk => hl.cc k (hlow k hk), fun k hk => hl.ca k (hlow1 k hk), ⟨hl.prov.1, hl.prov.2.1, hl.prov.2.2.1⟩,
-    hw.rc, hw.cc, hw.ca, fun _ => hw.good⟩
+    hw.rc, hw.cc, hw.ca, fun _ => hw.good, EvsOk.of_range hl.evs⟩
 
 /-- reading a tag body for fills touches the capture list and the step counter only -/
 theorem frame_capsteps {w : World} (hw : WInv w) (cp : List Captured) (st : Nat) : Frame w { w with cap := cp, steps := st } :=
-  ⟨Nat.le_refl _, fun _ _ => rfl, fun _ _ => rfl, fun _ _ => rfl, ⟨rfl, rfl, rfl⟩, hw.rc, hw.cc, hw.ca, fun h => h⟩
+  ⟨Nat.le_refl _, fun _ _ => rfl, fun _ _ => rfl, fun _ _ => rfl, ⟨rfl, rfl, rfl⟩, hw.rc, hw.cc, hw.ca, fun h => h, EvsOk.same rfl⟩
 
 /-- what reading a body for fills may do to the world, whatever the outcome -/
 def ExtrW (w w' : World) : Prop := ∃ cp st, w' = { w with cap := cp, steps := st }
@@ -437,8 +487,13 @@ theorem frame_reg (w w' : World) (hw : WInv w) (cc : Option CompCtx) (hcc : ∀ 
     (e2 : w'.ctxCache = match cc with | some c => alSet w.nextId c w.ctxCache | none => w.ctxCache)
     (e3 : w'.rendererCache = w.rendererCache) (e4 : w'.childAttrs = w.childAttrs)
     (e5 : w'.provideCache = w.provideCache) (e6 : w'.provideRefs = w.provideRefs) (e7 : w'.allRefIds = w.allRefIds)
-    (e8 : w'.cap = w.cap) : Frame w w' := by
+    (e8 : w'.cap = w.cap) (e9 : w'.events = w.events ∨ w'.events = w.events ++ [.gcd w.nextId]) : Frame w w' := by
   constructor
+  rotate_right
+  · rcases e9 with e9 | e9
+    · exact EvsOk.same e9
+    · refine ⟨[.gcd w.nextId], e9, ?_, by simp [gcdIds]⟩
+      intro k hk; simp only [gcdIds, List.mem_singleton] at hk; omega
   · omega
   · intro k _; rw [e3]
   · intro k hk
@@ -501,18 +556,18 @@ theorem estmt_impl (env : Env) (hlib : GoodLib env) (n : Nat) (ih : EStmt env n)
          · rename_i a wt ht
            obtain ⟨g, rfl⟩ := tick_ok _ _ _ _ _ ht
            obtain ⟨_, rfl⟩ := err_inj h
-           exact frame_reg w _ hw (some _) (fun c hc' => by injection hc' with hc'; rw [← hc']; exact good_cc name w.nextId _ fills o hgf ho) rfl rfl rfl rfl hw.prov.symm rfl rfl rfl
+           exact frame_reg w _ hw (some _) (fun c hc' => by injection hc' with hc'; rw [← hc']; exact good_cc name w.nextId _ fills o hgf ho) rfl rfl rfl rfl hw.prov.symm rfl rfl rfl (.inr rfl)
          · rename_i e2 wt ht
            obtain ⟨_, rfl⟩ := err_inj h
            have hc2 := tick_err _ _ _ _ _ ht
-           exact Frame.of_core_eq hc2 (frame_reg w _ hw (some _) (fun c hc' => by injection hc' with hc'; rw [← hc']; exact good_cc name w.nextId _ fills o hgf ho) rfl rfl rfl rfl hw.prov.symm rfl rfl rfl))
+           exact Frame.of_core_eq hc2.1 (frame_reg w _ hw (some _) (fun c hc' => by injection hc' with hc'; rw [← hc']; exact good_cc name w.nextId _ fills o hgf ho) rfl rfl rfl rfl hw.prov.symm rfl rfl rfl hc2.2))
     | some p =>
       simp only [run_bind, run_genId, run_get] at h
       cases hpc : alGet p w.ctxCache with
       | none =>
         simp only [hpc, run_throw] at h
         obtain ⟨_, rfl⟩ := err_inj h
-        exact frame_reg w _ hw none (fun _ hc' => by cases hc') rfl rfl rfl rfl rfl rfl rfl rfl
+        exact frame_reg w _ hw none (fun _ hc' => by cases hc') rfl rfl rfl rfl rfl rfl rfl rfl (.inl rfl)
       | some pc =>
         simp only [hpc, hd, hf, Bool.false_eq_true, ↓reduceIte, Bool.not_false, run_pure, Option.isNone_some,
           Bool.false_and, Option.isSome_some, run_modify, registerRefW, hw.prov, List.isEmpty_nil, run_bind, run_throw] at h
@@ -520,11 +575,11 @@ theorem estmt_impl (env : Env) (hlib : GoodLib env) (n : Nat) (ih : EStmt env n)
         · rename_i a wt ht
           obtain ⟨g, rfl⟩ := tick_ok _ _ _ _ _ ht
           obtain ⟨_, rfl⟩ := err_inj h
-          exact frame_reg w _ hw (some _) (fun c hc' => by injection hc' with hc'; rw [← hc']; exact good_cc name w.nextId _ fills o hgf ho) rfl rfl rfl rfl hw.prov.symm rfl rfl rfl
+          exact frame_reg w _ hw (some _) (fun c hc' => by injection hc' with hc'; rw [← hc']; exact good_cc name w.nextId _ fills o hgf ho) rfl rfl rfl rfl hw.prov.symm rfl rfl rfl (.inr rfl)
         · rename_i e2 wt ht
           obtain ⟨_, rfl⟩ := err_inj h
           have hc2 := tick_err _ _ _ _ _ ht
-          exact Frame.of_core_eq hc2 (frame_reg w _ hw (some _) (fun c hc' => by injection hc' with hc'; rw [← hc']; exact good_cc name w.nextId _ fills o hgf ho) rfl rfl rfl rfl hw.prov.symm rfl rfl rfl)
+          exact Frame.of_core_eq hc2.1 (frame_reg w _ hw (some _) (fun c hc' => by injection hc' with hc'; rw [← hc']; exact good_cc name w.nextId _ fills o hgf ho) rfl rfl rfl rfl hw.prov.symm rfl rfl rfl hc2.2)
   | some d =>
     have hgood := hlib d (findDef_mem env name d hf)
     have hgd := fun w' => getContextData_pure env w.nextId ctx kw d.data [] w' (pure_of_good d hgood.2)
@@ -543,7 +598,7 @@ theorem estmt_impl (env : Env) (hlib : GoodLib env) (n : Nat) (ih : EStmt env n)
         · rename_i e2 wt ht
           obtain ⟨_, rfl⟩ := err_inj h
           have hc2 := tick_err _ _ _ _ _ ht
-          exact Frame.of_core_eq hc2 (frame_reg w _ hw (some _) (fun c hc' => by injection hc' with hc'; rw [← hc']; exact good_cc name w.nextId _ fills o hgf ho) rfl rfl rfl rfl hw.prov.symm rfl rfl rfl)
+          exact Frame.of_core_eq hc2.1 (frame_reg w _ hw (some _) (fun c hc' => by injection hc' with hc'; rw [← hc']; exact good_cc name w.nextId _ fills o hgf ho) rfl rfl rfl rfl hw.prov.symm rfl rfl rfl hc2.2)
       | false =>
         simp only [run_bind, run_genId, hd, hf, hrc, Bool.false_eq_true, ↓reduceIte, Bool.not_false, run_pure, Option.isNone_none,
           Bool.true_and, Bool.and_self, Bool.and_false, Option.isSome_none, run_modify, registerRefW, hw.prov, List.isEmpty_nil] at h
@@ -556,14 +611,14 @@ theorem estmt_impl (env : Env) (hlib : GoodLib env) (n : Nat) (ih : EStmt env n)
         · rename_i e2 wt ht
           obtain ⟨_, rfl⟩ := err_inj h
           have hc2 := tick_err _ _ _ _ _ ht
-          exact Frame.of_core_eq hc2 (frame_reg w _ hw (some _) (fun c hc' => by injection hc' with hc'; rw [← hc']; exact good_cc name w.nextId _ fills o hgf ho) rfl rfl rfl rfl hw.prov.symm rfl rfl rfl)
+          exact Frame.of_core_eq hc2.1 (frame_reg w _ hw (some _) (fun c hc' => by injection hc' with hc'; rw [← hc']; exact good_cc name w.nextId _ fills o hgf ho) rfl rfl rfl rfl hw.prov.symm rfl rfl rfl hc2.2)
     | some p =>
       simp only [run_bind, run_genId, run_get] at h
       cases hpc : alGet p w.ctxCache with
       | none =>
         simp only [hpc, run_throw] at h
         obtain ⟨_, rfl⟩ := err_inj h
-        exact frame_reg w _ hw none (fun _ hc' => by cases hc') rfl rfl rfl rfl rfl rfl rfl rfl
+        exact frame_reg w _ hw none (fun _ hc' => by cases hc') rfl rfl rfl rfl rfl rfl rfl rfl (.inl rfl)
       | some pc =>
         simp only [hpc, hd, hf, Bool.false_eq_true, ↓reduceIte, Bool.not_false, run_pure, Option.isNone_some,
           Bool.false_and, Option.isSome_some, run_modify, registerRefW, hw.prov, List.isEmpty_nil, run_bind] at h
@@ -575,11 +630,12 @@ theorem estmt_impl (env : Env) (hlib : GoodLib env) (n : Nat) (ih : EStmt env n)
         · rename_i e2 wt ht
           obtain ⟨_, rfl⟩ := err_inj h
           have hc2 := tick_err _ _ _ _ _ ht
-          exact Frame.of_core_eq hc2 (frame_reg w _ hw (some _) (fun c hc' => by injection hc' with hc'; rw [← hc']; exact good_cc name w.nextId _ fills o hgf ho) rfl rfl rfl rfl hw.prov.symm rfl rfl rfl)
+          exact Frame.of_core_eq hc2.1 (frame_reg w _ hw (some _) (fun c hc' => by injection hc' with hc'; rw [← hc']; exact good_cc name w.nextId _ fills o hgf ho) rfl rfl rfl rfl hw.prov.symm rfl rfl rfl hc2.2)
 
 
-theorem frame_events {w : World} (hw : WInv w) (evs : List Ev) (g : Nat) : Frame w { w with events := evs, gcds := g } :=
-  ⟨Nat.le_refl _, fun _ _ => rfl, fun _ _ => rfl, fun _ _ => rfl, ⟨rfl, rfl, rfl⟩, hw.rc, hw.cc, hw.ca, fun h => h⟩
+theorem frame_events {w : World} (hw : WInv w) (evs : List Ev) (g : Nat) (hq : EvsOk w { w with events := evs, gcds := g }) :
+    Frame w { w with events := evs, gcds := g } :=
+  ⟨Nat.le_refl _, fun _ _ => rfl, fun _ _ => rfl, fun _ _ => rfl, ⟨rfl, rfl, rfl⟩, hw.rc, hw.cc, hw.ca, fun h => h, hq⟩
 
 theorem estmt_run (env : Env) (hlib : GoodLib env) (n : Nat) (ih : EStmt env n) :
     ∀ r k attrs w e w', GoodR env r k → WInv w →
@@ -590,9 +646,10 @@ theorem estmt_run (env : Env) (hlib : GoodLib env) (n : Nat) (ih : EStmt env n) 
   simp only [hg.dyn, Option.isNone_none, ↓reduceIte, hf] at h
   rcases bind_err _ _ _ _ _ h with ht | ⟨u, w1, ht, h⟩
   · have hc2 := tick_err _ _ _ _ _ ht
-    exact Frame.of_core_eq hc2 (frame_events hw _ _)
+    exact Frame.of_core_eq hc2.1 (frame_events hw _ _ (EvsOk.one (Ev.before r.id) rfl rfl hc2.2))
   · obtain ⟨g, rfl⟩ := tick_ok _ _ _ _ _ ht
-    have hf1 : Frame w { w with events := w.events ++ [Ev.before r.id], gcds := g } := frame_events hw _ _
+    have hf1 : Frame w { w with events := w.events ++ [Ev.before r.id], gcds := g } :=
+      frame_events hw _ _ (EvsOk.quiet [Ev.before r.id] rfl rfl)
     rcases bind_err _ _ _ _ _ h with hr | ⟨html, w2, hr, h⟩
     · exact hf1.trans (ih.nodes d.template r.ctx _ e w' (hlib d (findDef_mem env r.name d hf)).1 hg.free (hf1.winv hw) hr)
     · simp only [run_pure] at h; cases h
@@ -626,7 +683,7 @@ theorem estmt_loop (env : Env) (hlib : GoodLib env) (n : Nat) (ih : EStmt env n)
             have hfr := linv_frame h0 hl
             split at ht
             · have hc2 := tick_err _ _ _ _ _ ht
-              exact hfr.trans (Frame.of_core_eq hc2 (frame_events (hl.winv h0) _ _))
+              exact hfr.trans (Frame.of_core_eq hc2.1 (frame_events (hl.winv h0) _ _ (EvsOk.one (Ev.after pid) rfl rfl hc2.2)))
             · simp only [run_pure] at ht; cases ht
           · obtain ⟨evs, g, rfl, hev⟩ := opt_tick_ok env _ _ _ _ _ ht (by intro i hh; cases hh)
             simp only [run_bind, run_modify, unregisterRef, run_liftW, unregisterRefW] at h
@@ -697,7 +754,7 @@ theorem estmt_loop (env : Env) (hlib : GoodLib env) (n : Nat) (ih : EStmt env n)
                fun k hk => by rw [alGet_alDel_ne _ _ _ (by omega : cid ≠ k)]; exact hfr.rc k hk,
                hfr.cc,
                fun k hk => by rw [alGet_alDel_ne _ _ _ (by omega : cid ≠ k)]; exact hfr.ca k hk,
-               hfr.prov, hw1.rc, hw1.cc, hw1.ca, hfr.good⟩
+               hfr.prov, hw1.rc, hw1.cc, hw1.ca, hfr.good, hfr.evs⟩
             rcases bind_err _ _ _ _ _ hq with hrun | ⟨cg, w2, hrun, hq⟩
             · exact hfr1.trans (ih.run r cid _ _ e w' hg hw1 hrun)
             · obtain ⟨content, ga⟩ := cg
@@ -796,6 +853,51 @@ theorem history_all_returned (env : Env) (hlib : GoodLib env) (fuel : Nat) : ∀
     simp only [runHist, hr]
     exact ⟨fun k => (i1 k).trans (hbal.cc k (by simp)), fun k => (i2 k).trans (hbal.rc k (by simp)), fun k => (i3 k).trans (hbal.ca k)⟩
 
+theorem range'_glue (a b c : Nat) (h1 : a ≤ b) (h2 : b ≤ c) :
+    List.range' a (b - a) ++ List.range' b (c - b) = List.range' a (c - a) := by
+  have e : b = a + 1 * (b - a) := by omega
+  have h := List.range'_append (s := a) (m := b - a) (n := c - b) (step := 1)
+  rw [← e] at h
+  rw [h]
+  congr 1
+  omega
+
+/-- **Ids over a whole history of returning renders**: the `get_context_data` calls made by all the renders of the
+history together carry the ids `w.nextId, …, final.nextId - 1`, each exactly once, in order — no two instances of any two
+pages rendered by the process share an id. -/
+theorem history_ids_returned (env : Env) (hlib : GoodLib env) (fuel : Nat) : ∀ (qs : List Req) (w : World),
+    (∀ q ∈ qs, q.Good env) → WInv w → allReturn env fuel qs w →
+    w.nextId ≤ (runHist env fuel qs w).nextId ∧
+    ∃ evs, (runHist env fuel qs w).events = w.events ++ evs ∧
+      gcdIds evs = List.range' w.nextId ((runHist env fuel qs w).nextId - w.nextId)
+  | [], w, _, _, _ => ⟨Nat.le_refl _, [], by simp [runHist], by simp [runHist, gcdIds]⟩
+  | q :: rest, w, hq, hw, hall => by
+    obtain ⟨⟨toks, hok⟩, hrest⟩ := hall
+    obtain ⟨hd, hb, hc, hext, hpar⟩ := hq q (List.mem_cons_self ..)
+    rcases hr : (renderCompTag env fuel q.name q.kwargs q.only false q.body q.ctx).run.run w with ⟨r, w'⟩
+    rw [hr] at hok hrest
+    simp only at hok
+    subst hok
+    obtain ⟨hbal, _⟩ := tree_root_tag env hlib fuel q.name q.kwargs q.only false q.body q.ctx w w' toks hd hb hc hw hext hpar hr
+    have hw' := hw.step hbal
+    obtain ⟨hn, evs2, he2, hg2⟩ := history_ids_returned env hlib fuel rest w' (fun x hx => hq x (List.mem_cons_of_mem _ hx)) hw' hrest
+    obtain ⟨evs1, he1, hg1⟩ := hbal.evs
+    simp only [runHist, hr]
+    refine ⟨Nat.le_trans hbal.next hn, evs1 ++ evs2, ?_, ?_⟩
+    · rw [he2, he1, List.append_assoc]
+    · rw [gcdIds_append, hg1, hg2]
+      exact range'_glue _ _ _ hbal.next hn
+
+/-- **Ids over any history** — renders returning and raising in any order: the `get_context_data` calls logged over the
+whole history carry strictly increasing ids, all generated during the history. -/
+theorem history_ids (env : Env) (hlib : GoodLib env) (fuel : Nat) (qs : List Req) (w : World)
+    (hq : ∀ q ∈ qs, q.Good env) (hw : WInv w) :
+    ∃ evs, (runHist env fuel qs w).events = w.events ++ evs ∧
+      (∀ k ∈ gcdIds evs, w.nextId ≤ k ∧ k < (runHist env fuel qs w).nextId) ∧
+      (gcdIds evs).Pairwise (· < ·) ∧ (gcdIds evs).Nodup := by
+  obtain ⟨evs, he, hr, hp⟩ := (history_frame env hlib fuel qs w hq hw).evs
+  exact ⟨evs, he, hr, hp, hp.imp (fun h => Nat.ne_of_lt h)⟩
+
 /-- the three-level example with a fault injected into its fourth callback (`get_context_data` of a leaf): the render
 raises the injected error; entries of the unfinished instances stay (the listed finding), all under ids of this render -/
 def exFailSummary : Bool :=
@@ -805,5 +907,17 @@ def exFailSummary : Bool :=
     !w'.ctxCache.isEmpty && w'.ctxCache.all (fun kv => 1 ≤ kv.1 && kv.1 < w'.nextId) &&
       w'.rendererCache.all (fun kv => 1 ≤ kv.1 && kv.1 < w'.nextId) && w'.provideCache.isEmpty && w'.allRefIds.isEmpty
   | _ => false
+
+/-- a history of three renders of the example page, the first with a fault in its fourth callback: the first raises,
+the other two return; the ids handed to `get_context_data` over the whole history are pairwise distinct, and the
+failed render's ids are not reused -/
+def exHistIds : Bool :=
+  let env : Env := { exEnv false with raiseAt := some (3, 0) }
+  let q : Req := { name := "page".toList, kwargs := [], only := false, body := [], ctx := exCtx }
+  let r1 := (renderCompTag env 40 q.name q.kwargs q.only false q.body q.ctx).run.run {}
+  let w3 := runHist env 40 [q, q, q] {}
+  let ids := gcdIds w3.events
+  (match r1.1 with | .error (.user 0) => true | _ => false) &&
+    decide (ids.Nodup) && decide (ids.length > 2 * (gcdIds r1.2.events).length) && decide (ids.length + 1 ≤ w3.nextId)
 
 end Djc.Proofs.TreeFail
